@@ -1,6 +1,7 @@
 package main
 
 import (
+	"bufio"
 	"bytes"
 	"encoding/json"
 	"errors"
@@ -272,6 +273,11 @@ func runSkippers(b []byte, t int8, full bool, shapes int) []skipRes {
 		src := &dataSource{data: b, chunks: s.chunks, wd: s.wd, fail: s.fail}
 		r := skipRes{Impl: "readerdec", Shape: s.name}
 		protect(&r, func() {
+			// previous life of the pooled decoder object: a source that offers more than Read (io.ByteReader, io.ReaderAt,
+			// io.Seeker, io.WriterTo) and is drained; nothing of it may be consulted in the next life
+			pd := thrift.NewReaderSkipDecoder(bytes.NewReader(priorLifeBytes))
+			pd.Next(thrift.STRUCT)
+			pd.Release()
 			d := thrift.NewReaderSkipDecoder(src)
 			buf, err := d.Next(t)
 			r.Ok, r.N, r.Used, r.Tid = err == nil, len(buf), src.pos, tidOf(err)
@@ -283,6 +289,9 @@ func runSkippers(b []byte, t int8, full bool, shapes int) []skipRes {
 	}
 	return out
 }
+
+// struct{1: bool true; 2: byte 7; 3: struct{}}: one-byte pieces everywhere
+var priorLifeBytes = []byte{2, 0, 1, 1, 3, 0, 2, 7, 12, 0, 3, 0, 0}
 
 // buildSkipInput materialises the input of a case.
 func buildSkipInput(cs *SkipCase) *SegBuf {
@@ -452,7 +461,15 @@ func runSkipSeqCase(raw json.RawMessage, w *TraceWriter) {
 		}
 		{
 			src := &dataSource{data: b, chunks: sh.chunks, wd: sh.wd}
-			d := thrift.NewReaderSkipDecoder(src)
+			// first a source that offers more than Read (bytes.Reader / bufio.Reader), then Reset to the plain one
+			var d *thrift.ReaderSkipDecoder
+			if len(b)%2 == 0 {
+				d = thrift.NewReaderSkipDecoder(bytes.NewReader(priorLifeBytes))
+			} else {
+				d = thrift.NewReaderSkipDecoder(bufio.NewReader(bytes.NewReader(priorLifeBytes)))
+			}
+			d.Next(thrift.STRUCT)
+			d.Reset(src)
 			if c.Fail {
 				d.Reset(&dataSource{data: []byte{11, 0, 0}})
 				d.Next(thrift.STRING)
